@@ -13,7 +13,7 @@
    primitives are not modelled one by one: the protocol theorems below are about
    the automaton and about the call sequences of the modelled emitters). *)
 From Verif Require Import Base.GoSem Base.F32 Geom.Matrix
-  Draw.Links Draw.LinksSpec Draw.LinksProofs
+  Draw.Links Draw.LinksSpec Draw.LinksProofs Draw.LinksTree Draw.LinksTreeProofs
   Draw.Bookmarks Draw.BookmarkSpec Draw.BookmarksProofs
   Draw.Protocol Draw.ProtocolProofs Draw.Emit Draw.EmitProofs
   Draw.Meta Draw.MetaProofs Draw.Tiling Draw.TilingProofs.
@@ -268,6 +268,41 @@ Example C14_tiling_example :
   (* a 50px area, 30px tiles, space: one copy fits, the cell is the area (the seeded `>= 1` divides by 0 here) *)
   tile exactQ (mkaxis RSpace 0 50 50 30 7) (mkaxis RSpace 0 100 100 30 0)
   = Some (mkoaxis 50 (7 + 0), mkoaxis ((100 - 30) / (inject_Z 3 - 1)) (0 + 0)).
+Proof. vm_compute. reflexivity. Qed.
+
+(* ------------------------------------------------------------------ transform stack *)
+(* "link rectangles, anchors and bookmark targets are where the element is drawn", under
+   nested CSS transforms: what gatherLinksAndBookmarks stores for the boxes of a page are
+   EXACTLY the boxes of the tree, each placed (rectangle = bounding box of the hit area,
+   position = image of its origin) under the product of the own matrices of its
+   ancestors-or-self, outermost first - the matrices drawStackingContext applies when it
+   paints the box - and of nothing else *)
+Theorem C14_transform_stack_is_ancestor_chain : forall ar t m b,
+  In b (flatten ar m t) <->
+  exists chain r, occurs t chain r /\ b = place ar (chain_matrix ar m chain) r.
+Proof. exact flatten_occurs. Qed.
+Print Assumptions C14_transform_stack_is_ancestor_chain.
+
+(* a transformed box nested in a transformed ancestor does not change what its following
+   siblings receive: they are placed under the ancestor's matrix, as the preceding ones *)
+Theorem C14_transform_scoped_to_subtree : forall ar own info pre c post m,
+  flatten ar m (TBox own info (pre ++ c :: post)) =
+  (match info with Some r => [place ar (comb ar m own) r] | None => [] end)
+  ++ flat_map (flatten ar (comb ar m own)) pre
+  ++ flatten ar (comb ar m own) c
+  ++ flat_map (flatten ar (comb ar m own)) post.
+Proof. exact flatten_siblings. Qed.
+Print Assumptions C14_transform_scoped_to_subtree.
+
+Example C14_transform_stack_example :
+  (* outer translate(100,0) > [ inner scale(2) > link A ; link B ]: B is placed under the
+     translation alone (the seeded in-place product would give [140 0 180 20]) *)
+  let raw := fun n x => mkraw [] (Some (LInternal, [n])) false false [] 0 false x 0 10 10 in
+  map b_rect (flatten exactQ None
+    (TBox (Some (translation 100 0)) None
+       [TBox (Some (scaling 2 2)) None [TBox None (Some (raw 65%N 0)) []];
+        TBox None (Some (raw 66%N 20)) []]))
+  = [mkrect 100 0 120 20; mkrect 120 0 130 10].
 Proof. vm_compute. reflexivity. Qed.
 
 (* Not stated as a theorem: "every trace Document.Write can produce is accepted".
